@@ -3,6 +3,7 @@ package props
 import (
 	"math"
 	"math/big"
+	"strings"
 	"testing"
 
 	"github.com/db47h/decimal"
@@ -26,6 +27,9 @@ type C15Case struct {
 	M    uint8   `json:"m"`
 	Z    *h.Spec `json:"z,omitempty"`
 	DK   string  `json:"dk,omitempty"` // Float: what the destination held before ("", "+inf", "-inf", "big", "tiny")
+	// Pre: float64/float32: a value converted (and discarded) right before x. Whatever the library remembers between
+	// conversions (tables, caches of powers) must not change the next result.
+	Pre *h.Spec `json:"pre,omitempty"`
 }
 
 func (c C15Case) bigFloat() *big.Float {
@@ -255,9 +259,14 @@ func genC15(t *rapid.T) (c C15Case) {
 				depth := rapid.IntRange(1, 60).Draw(t, "strayd")
 				switch rapid.IntRange(0, 4).Draw(t, "straycls") {
 				case 0:
-					depth = rapid.IntRange(60, 3000).Draw(t, "strayd2")
+					depth = rapid.IntRange(60, 12000).Draw(t, "strayd2")
 				case 1:
 					depth = rapid.SampledFrom([]int{1024, 2048}).Draw(t, "straywords")*h.DW + rapid.IntRange(-40, 400).Draw(t, "strayd3")
+				case 2:
+					if h.Rare(t, "straydeep", 6) {
+						// tens of thousands of digits down (the power of five behind the conversion is that large)
+						depth = rapid.IntRange(8000, 140000).Draw(t, "strayd4")
+					}
 				}
 				v := c.X.Val()
 				w := model.AddX(v, model.MkFinite(rapid.Bool().Draw(t, "strayneg"), string(byte('1'+rapid.IntRange(0, 8).Draw(t, "straydig"))), v.Exp-int64(len(v.Digits))-int64(depth))).Val
@@ -279,6 +288,31 @@ func genC15(t *rapid.T) (c C15Case) {
 			}
 			v.Neg = rapid.Bool().Draw(t, "neg")
 			c.X = h.SpecOf(v, uint(len(v.Digits)), h.GenMode(t, "xm"))
+		case 4:
+			if !h.Rare(t, "pw.rare", 12) {
+				c.X = h.GenAny(t, "x", 800)
+				break
+			}
+			// a pair of conversions whose powers of five (5^n with n = digits below the point) differ by exactly
+			// 2^k, k = 8..17: the second one (a value of thousands of digits) is checked
+			k := rapid.IntRange(8, 17).Draw(t, "pw.k")
+			pd := h.GenDigitsN(t, "pw.pd", rapid.IntRange(1, 19).Draw(t, "pw.pn"))
+			pe := int64(rapid.IntRange(-60, 10).Draw(t, "pw.pe"))
+			pre := h.Spec{F: "f", D: pd, E: pe, P: uint(len(pd)), M: h.GenMode(t, "pw.pm")}
+			// n of the first value: 19*words - exp; the second gets n + 2^k through a long fractional part
+			nPre := int64((len(pd)+h.DW-1)/h.DW*h.DW) - pe
+			n2 := nPre + int64(1)<<uint(k)
+			// x: li integer digits, then zeros, then a last digit; its mantissa fills whole words, so that
+			// n = 19*words - exp = (li + fractional digits) - li = n2
+			li := h.DW - int(n2%int64(h.DW))
+			id := h.GenDigitsN(t, "pw.id", li)
+			for len(id) < li {
+				id += "0"
+			}
+			total := int(n2) + li
+			d := id + strings.Repeat("0", total-li-1) + "7"
+			c.X = h.Spec{F: "f", D: d, E: int64(li), P: uint(total), M: h.GenMode(t, "xm")}
+			c.Pre = &pre
 		default:
 			c.X = h.GenAny(t, "x", 800)
 			if c.X.F == "f" && rapid.IntRange(0, 3).Draw(t, "inrange") > 0 {
@@ -481,6 +515,14 @@ func checkC15(c C15Case, o *h.Obs) *h.Fail {
 		}
 		return nil
 	case "float64", "float32":
+		if c.Pre != nil {
+			o.Label("preceded-by-another-conversion")
+			if c.Op == "float64" {
+				c.Pre.Build().Float64()
+			} else {
+				c.Pre.Build().Float32()
+			}
+		}
 		x := c.X.Build()
 		xv := c.X.Val()
 		before := h.Read(x)
@@ -807,7 +849,7 @@ func checkSetFloatExtreme(c C15Case, o *h.Obs, z *decimal.Decimal) *h.Fail {
 	return nil
 }
 
-const ruleC15 = "rapid-generated cases. SetFloat64: float64 bit patterns (uniform bits, subnormals, extremes, powers of two, small integers and dyadic fractions, NaN payloads, +-Inf, +-0) x receiver precision {0, 1-6, 15-19, 1-120, 700-800 (holds every expansion)} x modes x previous receiver contents: sign kept, +-0/+-Inf mapped to themselves, NaN => ErrNaN, exact when the expansion fits, else within 1 ulp of the correctly rounded value. SetFloat: big.Float of precision 1..2000 bits, exponents to +-3000 (quick) / +-30000 (thorough), +-0, +-Inf: same, tolerance 64 ulp. SetFloat at the ends of big.Float's own exponent range (binary exponent within 400 of +-2^31, mantissas with the top and often the lowest bit set, precisions around 64): the stored value must be finite, of the right sign, and within 64 units of the binary value when both are scaled into the ordinary range with 600-bit arithmetic. Float64/Float32: Decimals exactly halfway between two adjacent floats and halfway +- 10^-k (built from the float), exact expansions of floats (must come back bit for bit), values around MaxFloat / SmallestNonzero / the smallest normal, generic values with exponents inside and far outside the range: the returned bits must equal big.Rat.Float64/Float32 of the exact rational (correctly rounded, ties to even), accuracy == sign(returned - x), saturation to +-Inf / +-0; in the two razor zones where 'nearest' and the documented saturation rule disagree ((Max, Max+half ulp) and (Smallest/2, Smallest)) both answers are accepted and counted. While the known finding F-10 (double rounding) is listed, float64/float32 cases whose value lies within 2^-6 / 2^-3 ulp of a float or of a midpoint are excluded by an input predicate and counted, and the same inputs are also run under a weaker oracle that holds there too (float64f/float32f: the result is one of the two floats enclosing x, sign preserved). Float: within 64 binary ulps at the destination's precision, sign and specials preserved, |exp| <= 5000; and (floatx) values of up to 60 digits with decimal exponents up to +-6.4e8, the limit of big.Float's own range, compared with digits x 10^e evaluated in 900-bit binary arithmetic (power of ten by squaring), same tolerance. Non-trivial = inexact conversion, halfway-adjacent input, subnormal or saturating result."
+const ruleC15 = "rapid-generated cases. SetFloat64: float64 bit patterns (uniform bits, subnormals, extremes, powers of two, small integers and dyadic fractions, NaN payloads, +-Inf, +-0) x receiver precision {0, 1-6, 15-19, 1-120, 700-800 (holds every expansion)} x modes x previous receiver contents: sign kept, +-0/+-Inf mapped to themselves, NaN => ErrNaN, exact when the expansion fits, else within 1 ulp of the correctly rounded value. SetFloat: big.Float of precision 1..2000 bits, exponents to +-3000 (quick) / +-30000 (thorough), +-0, +-Inf: same, tolerance 64 ulp. SetFloat at the ends of big.Float's own exponent range (binary exponent within 400 of +-2^31, mantissas with the top and often the lowest bit set, precisions around 64): the stored value must be finite, of the right sign, and within 64 units of the binary value when both are scaled into the ordinary range with 600-bit arithmetic. Float64/Float32: Decimals exactly halfway between two adjacent floats and halfway +- 10^-k (built from the float), exact expansions of floats (must come back bit for bit), values around MaxFloat / SmallestNonzero / the smallest normal, generic values with exponents inside and far outside the range: the returned bits must equal big.Rat.Float64/Float32 of the exact rational (correctly rounded, ties to even), accuracy == sign(returned - x), saturation to +-Inf / +-0; in the two razor zones where 'nearest' and the documented saturation rule disagree ((Max, Max+half ulp) and (Smallest/2, Smallest)) both answers are accepted and counted. Exact floats followed by zeros and one stray digit 1 .. 140 000 digits below (value unchanged, accuracy by the digit's sign); pairs of conversions whose powers of five differ by exactly 2^8 .. 2^17 (the second, of up to 131 000 digits, is checked: nothing remembered from one conversion may leak into the next). While the known finding F-10 (double rounding) is listed, float64/float32 cases whose value lies within 2^-6 / 2^-3 ulp of a float or of a midpoint are excluded by an input predicate and counted, and the same inputs are also run under a weaker oracle that holds there too (float64f/float32f: the result is one of the two floats enclosing x, sign preserved). Float: within 64 binary ulps at the destination's precision, sign and specials preserved, |exp| <= 5000; and (floatx) values of up to 60 digits with decimal exponents up to +-6.4e8, the limit of big.Float's own range, compared with digits x 10^e evaluated in 900-bit binary arithmetic (power of ten by squaring), same tolerance. Non-trivial = inexact conversion, halfway-adjacent input, subnormal or saturating result."
 
 // floatNearMidpoint: x lies within 2^-6 (Float64) / 2^-3 (Float32) of the gap between two adjacent floats from
 // their midpoint: the zone where rounding through the intermediate 64/32-bit big.Float first (itself off by a few
@@ -863,3 +905,42 @@ var propC15 = &h.Prop[C15Case]{ID: "C15", Rule: ruleC15, Gen: genC15, Check: che
 
 func TestC15(t *testing.T)       { propC15.Search(t) }
 func TestC15Replay(t *testing.T) { propC15.Replay(t) }
+
+// TestC15Grid: Float64 of F - 10^-n and F + 10^-n for one exactly representable F and EVERY n from 20 to 9000 and every third n up to 12000 (quick; thorough: every n to 20000): the value must come back as F and the
+// accuracy must say Above resp. Below, however many digits lie between F and the stray digit. (The conversion's
+// internal error grows with n and is irregular in n; an accuracy derived from an intermediate result goes wrong at
+// isolated n only.)
+func TestC15Grid(t *testing.T) {
+	defer h.WriteStats("C15")
+	max, dense := 12000, 9000
+	if h.Thorough() {
+		max, dense = 20000, 20000
+	}
+	const F = 3221225472 // 3 * 2^30
+	cnt := 0
+	for n := 20; n <= max; n++ { // (from 20: closer to F than any neighbouring float by far)
+		if n > dense && n%3 != 0 {
+			continue
+		}
+		for _, below := range []bool{true, false} {
+			var d string
+			if below {
+				d = "3221225471" + strings.Repeat("9", n) // F - 10^-n
+			} else {
+				d = "3221225472" + strings.Repeat("0", n-1) + "1"
+			}
+			x := h.Spec{F: "f", D: d, E: 10, P: uint(len(d)), M: uint8(n % 6)}.Build()
+			f, acc := x.Float64()
+			want := decimal.Below
+			if below {
+				want = decimal.Above
+			}
+			if f != F || acc != want {
+				c := C15Case{Op: "float64", X: h.Spec{F: "f", D: d, E: 10, P: uint(len(d)), M: uint8(n % 6)}}
+				h.ReportGridFail(t, "C15", h.Failf("acc", "Float64(%d %s 10^-%d) = (%v, %v), want (%d, %v)", F, map[bool]string{true: "-", false: "+"}[below], n, f, acc, F, want), mustJSON(c))
+			}
+			cnt++
+		}
+	}
+	h.AddExtra("C15", "stray_digit_depth_sweep_cases", cnt)
+}
